@@ -1,6 +1,6 @@
 (** C20 — proofs about the session handlers of Model/Lifecycle.v *)
 From Coq Require Import String Ascii List Bool ZArith NArith Arith Lia.
-From Raven Require Import Base.GoStr Model.Lifecycle Model.LifecycleSrv Spec.Lifecycle.
+From Raven Require Import Base.GoStr Model.Lifecycle Model.LifecycleSrv Model.LifecycleWrite Spec.Lifecycle.
 Import ListNotations.
 
 (* ---------------- generic run lemmas ---------------- *)
@@ -11,8 +11,8 @@ Proof. cbn [irun]. destruct (istep s e) as [s1 r]. cbn [fst]. destruct (irun s1 
 Lemma lrun_cons cf s e es : fst (lrun cf s (e :: es)) = fst (lrun cf (fst (lstep cf s e)) es).
 Proof. cbn [lrun]. destruct (lstep cf s e) as [s1 r]. cbn [fst]. destruct (lrun cf s1 es). reflexivity. Qed.
 
-Lemma srun_cons m e es : fst (srun m (e :: es)) = fst (srun (fst (sstep m e)) es).
-Proof. cbn [srun]. destruct (sstep m e) as [s1 r]. cbn [fst]. destruct (srun s1 es). reflexivity. Qed.
+Lemma srun_cons sh m e es : fst (srun sh m (e :: es)) = fst (srun sh (fst (sstep sh m e)) es).
+Proof. cbn [srun]. destruct (sstep sh m e) as [s1 r]. cbn [fst]. destruct (srun sh s1 es). reflexivity. Qed.
 
 Lemma irun_app s a b : fst (irun s (a ++ b)) = fst (irun (fst (irun s a)) b).
 Proof.
@@ -38,31 +38,21 @@ Proof.
 Qed.
 
 Lemma i_two_steps s e1 e2 :
-  is_nodata e1 = true -> is_nodata e2 = true -> i_mode s <> IIdle ->
+  is_nodata e1 = true -> is_nodata e2 = true ->
   i_mode (fst (istep (fst (istep s e1)) e2)) = IDone.
 Proof.
-  intros H1 H2 H3.
+  intros H1 H2.
   destruct e1 as [l1 o1| | |]; try discriminate H1; destruct e2 as [l2 o2| | |]; try discriminate H2;
-    destruct s as [m a se t]; destruct m; cbn in H3 |- *; try congruence; reflexivity.
+    destruct s as [m a se t]; destruct m; reflexivity.
 Qed.
 
 Lemma i_nodata_terminates s es :
-  i_mode s <> IIdle -> no_data es = true -> imap_steps_bound <= length es ->
+  no_data es = true -> imap_steps_bound <= length es ->
   i_mode (fst (irun s es)) = IDone.
 Proof.
-  intros Hm Hn Hl. destruct es as [|e1 [|e2 es]]; simpl in Hl; try (unfold imap_steps_bound in Hl; lia).
+  intros Hn Hl. destruct es as [|e1 [|e2 es]]; simpl in Hl; try (unfold imap_steps_bound in Hl; lia).
   unfold no_data in Hn. simpl in Hn. apply andb_prop in Hn as [H1 Hn]. apply andb_prop in Hn as [H2 _].
   rewrite !irun_cons. rewrite irun_done; apply i_two_steps; assumption.
-Qed.
-
-Lemma i_idle_stays s es : i_mode s = IIdle -> no_data es = true -> fst (irun s es) = s.
-Proof.
-  revert s. induction es as [|e es IH]; intros s Hm Hn; [reflexivity|].
-  unfold no_data in Hn. simpl in Hn. apply andb_prop in Hn as [H1 Hn].
-  rewrite irun_cons.
-  assert (Hs : fst (istep s e) = s).
-  { destruct e as [l o| | |]; try discriminate H1; destruct s as [m a se t]; cbn in Hm; subst m; reflexivity. }
-  rewrite Hs. apply IH; assumption.
 Qed.
 
 Lemma gone_nodata es : all_gone es = true -> no_data es = true.
@@ -77,36 +67,27 @@ Proof.
   intro H. apply andb_prop in H as [H1 H2]. rewrite IH by exact H2. destruct e; simpl in *; try discriminate; reflexivity.
 Qed.
 
-Lemma i_classify_none s g : i_classify s g = None <-> i_mode s <> IIdle.
-Proof. unfold i_classify. destruct (i_mode s); split; intro H; try reflexivity; try discriminate; congruence. Qed.
-
-(** (a) the client is gone *)
+(** (a) the client is gone — from EVERY state, IDLE included *)
 Lemma imap_gone_terminates s es :
-  i_classify s true = None -> all_gone es = true -> imap_steps_bound <= length es ->
-  i_done (fst (irun s es)) = true.
+  all_gone es = true -> imap_steps_bound <= length es -> i_done (fst (irun s es)) = true.
 Proof.
-  intros Hc Hg Hl. unfold i_done. rewrite i_nodata_terminates; try assumption; try reflexivity.
-  - apply i_classify_none in Hc. exact Hc.
-  - apply gone_nodata, Hg.
+  intros Hg Hl. unfold i_done. rewrite i_nodata_terminates; try assumption; try reflexivity.
+  apply gone_nodata, Hg.
 Qed.
 
 (** (b) the client is silent *)
 Lemma imap_silent_terminates s es :
-  i_classify s false = None -> all_silent es = true -> imap_steps_bound <= length es ->
-  i_done (fst (irun s es)) = true.
+  all_silent es = true -> imap_steps_bound <= length es -> i_done (fst (irun s es)) = true.
 Proof.
-  intros Hc Hg Hl. unfold i_done. rewrite i_nodata_terminates; try assumption; try reflexivity.
-  - apply i_classify_none in Hc. exact Hc.
-  - apply silent_nodata, Hg.
+  intros Hg Hl. unfold i_done. rewrite i_nodata_terminates; try assumption; try reflexivity.
+  apply silent_nodata, Hg.
 Qed.
 
 Lemma imap_silence_time s :
-  i_classify s false = None ->
   exists t, i_silence_ms 3 s = Some t /\ (t <= imap_silence_bound)%N.
 Proof.
-  intro Hc. apply i_classify_none in Hc.
-  destruct s as [m a se t]; cbn [i_mode] in Hc; destruct m; try (exfalso; apply Hc; reflexivity);
-    destruct a, se, t; eexists; (split; [vm_compute; reflexivity | vm_compute; discriminate]).
+  destruct s as [m a se t]; destruct m; destruct a, se, t; eexists;
+    (split; [vm_compute; reflexivity | vm_compute; discriminate]).
 Qed.
 
 Lemma imap_deadlines m :
@@ -116,59 +97,37 @@ Proof.
 Qed.
 
 (** from every state, any single silence or disconnection leads to the
-    command loop, to the end, or (IDLE) nowhere *)
+    command loop or to the end *)
 Lemma imap_nodata_step s e :
   is_nodata e = true ->
-  let s' := fst (istep s e) in
-  i_mode s' = IDone \/ i_mode s' = ICmd \/ (i_mode s = IIdle /\ s' = s).
+  let s' := fst (istep s e) in i_mode s' = IDone \/ i_mode s' = ICmd.
 Proof.
   intro H. destruct e as [l o| | |]; try discriminate H;
     destruct s as [m a se t]; destruct m; cbn; auto.
 Qed.
 
-(** the two refutations *)
 Definition idle_prefix : list event :=
   [Data (S_ "a LOGIN u p") true; Data (S_ "b SELECT INBOX") true; Data (S_ "c IDLE") true].
 
 Lemma idle_prefix_reaches : i_mode (fst (irun (i_init true) idle_prefix)) = IIdle.
 Proof. vm_compute. reflexivity. Qed.
 
-Lemma imap_idle_never_ends :
-  exists s, i_reachable s /\ i_classify s true = Some IdleIgnoresReadErrors /\
-            forall es, all_gone es = true -> i_done (fst (irun s es)) = false.
-Proof.
-  exists (fst (irun (i_init true) idle_prefix)). split; [exists true, idle_prefix; reflexivity|].
-  split; [vm_compute; reflexivity|].
-  intros es Hg. rewrite i_idle_stays; [vm_compute; reflexivity | apply idle_prefix_reaches | apply gone_nodata, Hg].
-Qed.
+(** regression witnesses: the traces on which raven used to run for ever *)
+Lemma imap_idle_gone_ends :
+  i_done (fst (irun (i_init true) (idle_prefix ++ [Eof; Eof]))) = true /\
+  i_done (fst (irun (i_init true) (idle_prefix ++ [Timeout; ReadErr]))) = true /\
+  i_silence_ms 3 (fst (irun (i_init true) idle_prefix)) = Some 1800000%N.
+Proof. vm_compute. repeat split; reflexivity. Qed.
 
-Lemma i_silence_idle fuel s : i_mode s = IIdle -> i_silence_ms fuel s = None.
-Proof.
-  revert s. induction fuel as [|f IH]; intros s Hm; destruct s as [m a se t]; cbn [i_mode] in Hm; subst m; [reflexivity|].
-  cbn [i_silence_ms ideadline i_mode]. change (fst (istep (mk_i IIdle a se t) Timeout)) with (mk_i IIdle a se t).
-  rewrite IH; reflexivity.
-Qed.
+(** the behaviour before fixes C20-1/C20-2, as a function of its own (it does
+    not mention the current model): every failed poll read left IDLE where it was *)
+Definition old_idle_poll (idling : bool) (e : event) : bool :=
+  match e with Data l _ => if is_done_word l then false else idling | _ => idling end.
 
-Lemma imap_idle_no_deadline :
-  exists s, i_reachable s /\ i_classify s false = Some IdleNoDeadline /\
-            (forall es, all_silent es = true -> i_done (fst (irun s es)) = false) /\
-            (forall fuel, i_silence_ms fuel s = None).
+Lemma old_idle_never_ended es : no_data es = true -> fold_left old_idle_poll es true = true.
 Proof.
-  exists (fst (irun (i_init true) idle_prefix)). split; [exists true, idle_prefix; reflexivity|].
-  split; [vm_compute; reflexivity|]. split.
-  - intros es Hg. rewrite i_idle_stays; [vm_compute; reflexivity | apply idle_prefix_reaches | apply silent_nodata, Hg].
-  - intro fuel. apply i_silence_idle, idle_prefix_reaches.
-Qed.
-
-(** a final command line without terminator is still executed: a client that
-    disconnects right after the bytes "c IDLE" leaves the poll loop running *)
-Lemma imap_partial_line_idle :
-  let s := fst (irun (i_init true) [Data (S_ "a LOGIN u p") true; Data (S_ "b SELECT INBOX") true]) in
-  i_classify s true = None /\
-  forall es, all_gone es = true -> i_done (fst (irun s (Data (S_ "c IDLE") true :: es))) = false.
-Proof.
-  split; [vm_compute; reflexivity|]. intros es Hg. rewrite irun_cons.
-  rewrite i_idle_stays; [vm_compute; reflexivity | vm_compute; reflexivity | apply gone_nodata, Hg].
+  induction es as [|e es IH]; [reflexivity|]. unfold no_data. simpl. intro H. apply andb_prop in H as [H1 H2].
+  destruct e; try discriminate H1; simpl; apply IH, H2.
 Qed.
 
 (* ---------------- LMTP ---------------- *)
@@ -212,15 +171,28 @@ Proof. destruct s as [m a b c]; cbn [l_mode]; intro H; subst m; destruct a, b, o
 
 (* ---------------- SASL ---------------- *)
 
-Lemma sasl_nodata_terminates m es :
-  no_data es = true -> sasl_steps_bound <= length es -> s_done (fst (srun m es)) = true.
+Lemma sasl_nodata_terminates sh m es :
+  no_data es = true -> sasl_steps_bound <= length es -> s_done (fst (srun sh m es)) = true.
 Proof.
   intros Hn Hl. destruct es as [|e es]; simpl in Hl; try (unfold sasl_steps_bound in Hl; lia).
   unfold no_data in Hn. simpl in Hn. apply andb_prop in Hn as [H1 _].
   rewrite srun_cons.
-  assert (Hd : fst (sstep m e) = SDone) by (destruct e as [l o| | |]; try discriminate H1; destruct m; reflexivity).
+  assert (Hd : fst (sstep sh m e) = SDone) by (destruct e as [l o| | |]; try discriminate H1; destruct m; reflexivity).
   rewrite Hd. clear. induction es as [|e es IH]; [reflexivity|]. rewrite srun_cons. exact IH.
 Qed.
 
 Lemma sasl_deadline m : m <> SDone -> sdeadline m = Some 30000%N.
 Proof. destruct m; intro H; [reflexivity | exfalso; apply H; reflexivity]. Qed.
+
+(** once Shutdown has begun, a connection survives only lines of a single
+    field (which do not re-arm the 30 s deadline): any request that is answered
+    is the last one, and any failed read ends the handler *)
+Lemma sasl_shutdown_ends_connection m e :
+  s_done (fst (sstep true m e)) = true \/
+  (exists l o, e = Data l o /\ snd (sstep true m e) = 0 /\ fst (sstep true m e) = m).
+Proof.
+  destruct m; [|left; reflexivity].
+  destruct e as [l o| | |]; try (left; reflexivity).
+  cbn [sstep]. destruct (max_token <=? N.of_nat (length l))%N; [left; reflexivity|].
+  destruct (length (split_tab l) <? 2); [right; exists l, o; repeat split; reflexivity | left; reflexivity].
+Qed.
